@@ -124,6 +124,15 @@ def check(prop, tier, seed, replay):
             if rc != 0:
                 raise ToolError("keepalive_sim random failed: " + o[-400:])
             batches.append(("random", out2))
+        # 2b. the keepalive inside the full multiplexor (PenguinMux / MuxTrace): see families.ka_leg
+        mux_leg = None
+        if not replay:
+            import families
+            mc2, ntr, nacc, nexits, kfails = families.ka_leg(tier, int(seed), work)
+            mc_runs += mc2
+            mux_leg = dict(traces=ntr, accepted=nacc, traces_with_keepalive_expiry=nexits, rejected_speaking_about_C16=len(kfails))
+        else:
+            kfails = []
         # 3. TLC validates every trace
         known = [k for k in vlib.load_known() if k.get("property") == PROP and k.get("status") == "open"]
         known_sigs = {k.get("sig"): k for k in known}
@@ -160,6 +169,9 @@ def check(prop, tier, seed, replay):
                 else:
                     accepted += 1
             log(f"[trace] {name}: {len(cl)} cases, {lines} events, {len(bad)} rejected events")
+        for mode, lines, desc in kfails:
+            p = vlib.save_replay(PROP, mode, lines, note=desc)
+            violations.append((p, "mux-level trace rejected by MuxTrace: " + desc[:300]))
         for sig, n in known_hits.items():
             print(f"KNOWN-FINDING: property={PROP} {known_sigs[sig]['what']} ({n} cases in this run)")
         wall = time.time() - t0
@@ -169,7 +181,7 @@ def check(prop, tier, seed, replay):
                 evaluations=total_cases, distinct_nontrivial=nontrivial,
                 rule="a case counts when at least one Pong was delivered or the task exited (i.e. the detector had something to decide)",
                 samples=samples or [dict(note="none")], model_checking_runs=mc_runs,
-                known_finding_cases=known_hits,
+                known_finding_cases=known_hits, mux_level_leg=mux_leg,
                 explanation="Keepalive.tla: TLC checks the clauses of C16 on the tick-based detector for every (I,T) of the grid and every pong "
                             "history within the horizon; keepalive_sim runs the real connection task on tokio's paused clock (exact virtual time) "
                             "for TLC-enumerated and random cases, and KeepaliveTrace.tla evaluates the same clause definitions on every trace"),
